@@ -138,6 +138,17 @@ RightCtx(op) == CMin(BinLevel(op) + 1)
 (*   @ind @out    an indented suite (line break, deeper indentation)       *)
 (*   @ind? @out?  a suite of simple statements only: may also be written   *)
 (*                on the header's line (then every @sep inside is `;`)     *)
+(*                                                                         *)
+(* Where a node starts: at the first token of its production, parentheses  *)
+(* that merely enclose it not counted -- so a binary expression, a         *)
+(* conditional, a call / index / slice / dot expression, a dict entry, an  *)
+(* assignment and an expression statement start where their first operand  *)
+(* starts (which may be a parenthesis enclosing that operand); a tuple     *)
+(* without own parentheses at its first element, the empty tuple at its    *)
+(* `(`; unary forms, lambda, displays, comprehensions and their clauses,   *)
+(* parameters `*x` / `**x`, arguments `*x` / `**x` / `name=x`, and the     *)
+(* statements def / if / elif / for / while / return / pass / break /      *)
+(* continue / load at their first token (keyword, bracket, `*`, name).     *)
 (***************************************************************************)
 MARK == "@n"
 
@@ -495,6 +506,7 @@ BytesPool == {"b's'", "rb's'"}
 TokClass(tok) ==
   CASE tok \in Keywords \cup Punct -> tok
     [] tok \in Reserved -> "reserved"          \* a token that occurs in no production
+    [] tok = "<stray>" -> "stray"              \* a character that can begin no token (likewise)
     [] tok \in IntPool -> "int"
     [] tok \in FloatPool -> "float"
     [] tok \in StrPool -> "string"
